@@ -657,6 +657,30 @@ class SemantivaOrchestrator(ABC):
         for k, v in declared.items():
             params_out[k] = serialize_json_safe(v)
             source_out[k] = "node"
+        # Same precedence as runtime resolution (node > context > default) for
+        # every parameter the processor takes.
+        name_getter = getattr(node.processor, "get_processing_parameter_names", None)
+        try:
+            param_names = list(name_getter() or []) if callable(name_getter) else []
+        except Exception:
+            param_names = []
+        signature_defaults = self._parameter_defaults(node.processor)
+        for name in param_names:
+            if name in params_out:
+                continue
+            if name in ctx_view:
+                params_out[name] = serialize_json_safe(ctx_view[name])
+                source_out[name] = "context"
+                continue
+            info = signature_defaults.get(name)
+            default: Any = _NO_DEFAULT
+            if isinstance(info, ParameterInfo):
+                default = info.default
+            elif isinstance(info, dict):
+                default = info.get("default", _NO_DEFAULT)
+            if default is not _NO_DEFAULT:
+                params_out[name] = serialize_json_safe(default)
+                source_out[name] = "default"
         for k in required_keys:
             if k not in params_out and k in ctx_view:
                 params_out[k] = serialize_json_safe(ctx_view[k])
